@@ -32,6 +32,9 @@
 //   state: c.routePos (per request,  | method refused / default / Miss            | DELETE OPTIONS; leaves returning nil, Miss,
 //   in the CONTEXT, shared by every  | leaf result: nil, Miss, coded errors,      | NotFound, Internal, Unauthorized, InvalidArg,
 //   service the context is handed to)| plain error, panic (nil func)              | plain; number of leaves run per request
+//  C.RelRoute() (the one accessor    | handler only reads it / overwrites every   | router-rich, seq-direct, seq-tiers, steps-router,
+//   of C returning a slice)          | element / append(rr[:1], x) and declines   | corpus: handlers with "w" (C20-g) [new]
+//                                    | or delegates to a sub-router               |
 //  one *C through several services   | router misses after shifting the context,  | seq-direct (r1.Serve(c); r2.Serve(c); ...),
 //                                    | next router / next tier gets the same *C   | seq-tiers (ServiceSet{Auth,Resource,Guest,User,
 //                                    |                                            | Admin} all routers, nil tiers), corpus  [FINDING]
@@ -119,6 +122,26 @@ type RouterOp struct {
 	H   int    `json:"h"`             // < 1000: leaf tag; 1000+j: router j of the case
 	Nil bool   `json:"nil,omitempty"` // register a nil handler (nil Func; nil Service for dirsvc)
 	E   string `json:"e,omitempty"`   // what the leaf returns: "" nil | notfound | internal | unauth | invalid | plain
+	W   int    `json:"w,omitempty"`   // what the handler does to the slice C.RelRoute() hands it: 1 overwrites every element with WS, 2 append(rr[:1], WS)
+	WS  string `json:"ws,omitempty"`
+}
+
+// scribble: a handler may do what it likes with a slice it was handed.
+func scribble(cc *aries.C, w int, ws string) {
+	if w == 0 {
+		return
+	}
+	rr := cc.RelRoute()
+	switch w {
+	case 1:
+		for i := range rr {
+			rr[i] = ws
+		}
+	case 2:
+		if len(rr) >= 1 {
+			_ = append(rr[:1], ws)
+		}
+	}
 }
 
 type RouterDef struct {
@@ -532,8 +555,16 @@ func buildRoutersRec(c *Case, rec func(*leafHit)) ([]*aries.Router, [][]int) {
 			return nil
 		}
 		h := op.H
+		w, ws := op.W, op.WS
 		if h >= 1000 && h-1000 < n {
-			return routers[h-1000].Serve
+			if w == 0 {
+				return routers[h-1000].Serve
+			}
+			sub := routers[h-1000]
+			return func(cc *aries.C) error { // writes to what it was handed, then delegates
+				scribble(cc, w, ws)
+				return sub.Serve(cc)
+			}
 		}
 		e := op.E
 		return func(cc *aries.C) error {
@@ -543,6 +574,7 @@ func buildRoutersRec(c *Case, rec func(*leafHit)) ([]*aries.Router, [][]int) {
 			} else {
 				cc.Data["leaf"] = lh // concurrent mode: nothing shared
 			}
+			scribble(cc, w, ws)
 			return leafError(e)
 		}
 	}
@@ -1077,9 +1109,10 @@ func runSteps(c *Case) {
 		if op.Nil {
 			return nil
 		}
-		h, e := op.H, op.E
+		h, e, w, ws := op.H, op.E, op.W, op.WS
 		return func(cc *aries.C) error {
 			hits = append(hits, leafHit{tag: h, rel: cc.Rel()})
+			scribble(cc, w, ws)
 			return leafError(e)
 		}
 	}
@@ -1330,6 +1363,14 @@ func genRouterDefs(r *hx.Rng, rich bool) []RouterDef {
 				if op.Op == "mfile" && r.Intn(3) == 0 {
 					op.M = []string{"PUT", "get", "HEAD", "DELETE"}[r.Intn(4)] // any method string, compared exactly
 				}
+				if r.Intn(3) == 0 {
+					// the handler writes to the RelRoute slice it is handed (and, being a
+					// directory or a default, often declines afterwards)
+					op.W, op.WS = 1+r.Intn(2), []string{"a", "b", "a", "b", "zz"}[r.Intn(5)]
+					if op.H < 1000 && r.Bool() {
+						op.E = "miss"
+					}
+				}
 				if r.Intn(20) == 0 && op.Op != "jsoncall" && op.Op != "call" {
 					op.Nil = true
 				}
@@ -1471,6 +1512,25 @@ func genCases(seed uint64, tier string) []Case {
 			},
 			Reqs: []Req{{"/a/b", "GET"}, {"/a", "GET"}, {"/b", "GET"}, {"/a/b/", "GET"}, {"/d/x", "GET"}, {"/d/y", "GET"},
 				{"/d", "GET"}, {"/d/b", "GET"}, {"/a/x", "GET"}, {"/d/m", "GET"}, {"/m", "GET"}, {"/", "GET"}}})
+	}
+	// seeded change C20-g: handlers that write to the slice C.RelRoute() handed them.
+	// GET /docs/secret: the guest router's "docs" directory appends "index" to
+	// rr[:1] and declines; the user router has docs/index (a file) and docs (a
+	// directory).  GET /api/ADMIN: the directory handler overwrites its RelRoute
+	// with "admin" and delegates to a sub-router that has the file "admin".
+	for _, mode := range []string{"direct", "tiers"} {
+		seq := []int{0, 1}
+		if mode == "tiers" {
+			seq = []int{-1, -1, 0, 1, -1}
+		}
+		add(Case{Stream: "corpus", Kind: "seq", Mode: mode, Seq: seq, U0: "u", L0: 0,
+			Routers: []RouterDef{
+				{Ops: []RouterOp{{Op: "dir", P: "docs", H: 1, E: "miss", W: 2, WS: "index"}, {Op: "dir", P: "api", H: 1002, W: 1, WS: "admin"},
+					{Op: "dir", P: "x", H: 3, E: "miss", W: 1, WS: "docs"}}},
+				{Ops: []RouterOp{{Op: "file", P: "docs/index", H: 11}, {Op: "dir", P: "docs", H: 12}, {Op: "file", P: "x/docs", H: 13}}},
+				{Ops: []RouterOp{{Op: "file", P: "admin", H: 21}, {Op: "default", H: 22}}},
+			},
+			Reqs: []Req{{"/docs/secret", "GET"}, {"/api/ADMIN", "GET"}, {"/x/y", "GET"}, {"/docs/secret/deep", "GET"}, {"/api/admin", "GET"}}})
 	}
 	// ... and a Mux / Router / HostMux that keeps being registered on after it served
 	{
@@ -1811,6 +1871,9 @@ func genCases(seed uint64, tier string) []Case {
 				}
 				if r.Intn(8) == 0 {
 					op.E = []string{"miss", "internal"}[r.Intn(2)]
+				}
+				if r.Intn(4) == 0 {
+					op.W, op.WS = 1+r.Intn(2), []string{"a", "b"}[r.Intn(2)]
 				}
 				c.Steps = append(c.Steps, Step{Rop: op})
 				tag++
